@@ -110,6 +110,15 @@ def units(tier, seed):
         us.append({"kind": "fractional", "weights": w, "sizes": list(range(2, 14)) + [37, 50]})
     for eps in (False, True):
         us.append({"kind": "lexicase", "epsilon": eps})
+    # one combinator object whose weights change between generations (as the adaptive variants do)
+    for head in ("par", "xpar"):
+        for mode in ("reassign", "setitem", "ctor-list-edited", "augmented"):
+            us.append({"kind": "reweighted", "head": head, "mode": mode})
+    for lib in ("feedback", "randomize"):
+        us.append({"kind": "reweighted-lib", "lib": lib, "max_dev": 2 if tier == "quick" else 3, "max_execs": 400 if tier == "quick" else 5000})
+    for gname in ("S1", "mindepth2", "mindepth3"):
+        for init in ("grow", "pigrow", "ramped", "full", "inject-grow", "standard"):
+            us.append({"kind": "init-deep", "init": init, "grammar": gname})
     for init in ("standard", "generic", "full", "grow", "pigrow", "ramped", "halfandhalf"):
         us.append({"kind": "init", "init": init})
     for n_inject in range(0, 6):
@@ -209,6 +218,157 @@ def run_fractional(unit) -> UnitResult:
     r.states = len(unit["sizes"])
     r.samples.append({"weights": w, "sizes": unit["sizes"][:4]})
     return r
+
+
+REWEIGHTS = [[1, 1, 1], [1, 2, 3], [3, 0, 1], [5, 5, 90], [0, 0, 1], [2, 2, 0]]
+
+
+def run_reweighted(unit) -> UnitResult:
+    r = UnitResult()
+    rep = StubRepresentation(2)
+    problem = SingleObjectiveProblem(lambda p: [2.0, 0.0, 1.0][p.v % 3])
+    head, mode = unit["head"], unit["mode"]
+    leaves = ["E", "N", "M"] if head == "par" else ["M", "X", "I"]
+    for w1, w2 in itertools.permutations(REWEIGHTS, 2):
+        for n in (2, 3, 4, 5, 7, 10):
+            given = list(w1)
+            subs = [leaf(x) for x in leaves]
+            step = ParallelStep(subs, given) if head == "par" else ExclusiveParallelStep(subs, given)
+            sizes = []
+            wit = {"unit": unit, "w1": w1, "w2": w2, "n": n}
+            try:
+                for gen in (1, 2, 3):
+                    ev = SequentialEvaluator()
+                    inds = [Individual(rep._new(i % 3), rep) for i in range(n)]
+                    sizes.append(len(list(step.apply(problem, ev, rep, ExhaustiveSource(()), inds, n, gen))))
+                    if gen == 1:
+                        if mode == "reassign":
+                            step.weights = list(w2)
+                        elif mode == "setitem":
+                            for i, x in enumerate(w2):
+                                step.weights[i] = x
+                        elif mode == "ctor-list-edited":
+                            given[:] = w2
+                            if step.weights is not given:
+                                step.weights = list(w2)  # the step copied its argument: plain reassignment instead
+                        else:
+                            for i, x in enumerate(w2):
+                                step.weights[i] += x - w1[i]
+            except Exception as e:  # noqa
+                r.add_violation(Violation(PROP, "GeneticStep.apply", "raised", {"combinators": [head], "form": "reweighted", "exc": type(e).__name__}, wit,
+                                          f"{head} {leaves} weights {w1} then {w2} ({mode}) on {n}: {exc_brief(e)}"))
+                continue
+            r.executions += 3
+            r.nontrivial += 1
+            r.count("step_cases")
+            if sizes != [n, n, n]:
+                r.add_violation(Violation(PROP, "GeneticStep.apply", "wrong-size", {"combinators": [head], "form": "reweighted", "sign": "over" if max(sizes) > n else "under"}, wit,
+                                          f"{head} {leaves} weights {w1}, then changed to {w2} ({mode}) on the same step object: generations of {n} yielded {sizes}"))
+    r.states = len(REWEIGHTS) ** 2
+    r.samples.append({"reweighted": head, "mode": mode})
+    return r
+
+
+def run_reweighted_lib(unit) -> UnitResult:
+    """The library's own weight-changing combinators, three generations on one step object."""
+    from geneticengine.algorithms.gp.adaptive import FeedbackParallelStep
+    from geneticengine.algorithms.gp.parameterless import RandomizeParallelStep
+
+    r = UnitResult()
+    for n in (3, 4, 5, 9):
+        def run(src, n=n):
+            rep = StubRepresentation(2)
+            # fitness grows with the serial number, so that later offspring beat the recorded best (feedback deltas > 0)
+            problem = SingleObjectiveProblem(lambda p: float(p.v))
+            ev = SequentialEvaluator()
+            tracker = SingleObjectiveProgressTracker(problem, ev)
+            subs = [ElitismStep(), NoveltyStep(), GenericMutationStep(1), SequenceStep(TournamentSelection(2), GenericCrossoverStep(1))]
+            if unit["lib"] == "feedback":
+                step = FeedbackParallelStep(tracker, subs, [1.0, 1.0, 1.0, 1.0])
+            else:
+                step = RandomizeParallelStep(subs, [1, 1, 1, 1])
+            pop = Population(iter([Individual(rep._new(0), rep) for i in range(n)]), tracker)
+            sizes = []
+            for gen in (1, 2, 3):
+                pop = Population(step.apply(problem, ev, rep, src, pop, n, gen), tracker, gen)
+                sizes.append((len(pop.individuals), [round(float(x), 3) for x in step.weights]))
+            return sizes
+
+        st = ExploreStats()
+        for ex in explore(run, max_dev=unit["max_dev"], max_execs=unit["max_execs"], horizon=5000, stats=st):
+            r.executions += 1
+            w = {"unit": unit, "n": n, "choices": list(ex.choices)}
+            f = {"combinators": [unit["lib"]], "form": "reweighted"}
+            if ex.exc is not None:
+                r.add_violation(Violation(PROP, "GeneticStep.apply", "raised", dict(f, exc=type(ex.exc).__name__), w,
+                                          f"{unit['lib']} parallel step on {n}: {exc_brief(ex.exc)}"))
+                continue
+            r.count("step_cases")
+            if len({tuple(ws) for _, ws in ex.result}) > 1:
+                r.nontrivial += 1
+                r.count("runs_with_changed_weights")
+            if [k for k, _ in ex.result] != [n, n, n]:
+                r.add_violation(Violation(PROP, "GeneticStep.apply", "wrong-size", dict(f, sign="over" if max(k for k, _ in ex.result) > n else "under"), w,
+                                          f"{unit['lib']} parallel step, population {n}: (size, weights after) per generation = {ex.result}"))
+        r.capped += st.capped_paths
+    r.states = 4
+    r.samples.append({"reweighted_lib": unit["lib"]})
+    return r
+
+
+def run_init_deep(unit) -> UnitResult:
+    """Initialisers on grammars whose minimum tree depth is above 1 (the first depths tried are infeasible)."""
+    r = UnitResult()
+    spec = deep_spec(unit["grammar"])
+    b = G.build(spec)
+    try:
+        g = b.extract()
+        problem = SingleObjectiveProblem(lambda p: 1.0)
+        for k in (1, 2, 3, 5):
+            def run(src, k=k):
+                rep = make_rep("tree", g, src, 4)
+                name = unit["init"]
+                init = {"grow": GrowInitializer, "pigrow": lambda: PositionIndependentGrowInitializer(4), "ramped": lambda: RampedHalfAndHalfInitializer(4),
+                        "full": lambda: FullInitializer(4), "standard": StandardInitializer,
+                        "inject-grow": lambda: InjectInitialPopulationWrapper([rep.create_genotype(ExhaustiveSource((), strict=False))], GrowInitializer())}[name]()
+                kw = {"max_tries": 2} if name in ("grow",) else {}
+                return len(list(init.initialize(problem, rep, src, k, **kw)))
+
+            st = ExploreStats()
+            for ex in explore(run, max_dev=1, max_execs=40, horizon=200000, stats=st):
+                r.executions += 1
+                if ex.capped:
+                    continue
+                r.nontrivial += 1
+                w = {"unit": unit, "k": k, "choices": list(ex.choices)}
+                f = {"init": unit["init"], "min_depth_above_1": unit["grammar"] != "S1"}
+                if ex.exc is not None:
+                    if is_library_error(ex.exc) and unit["init"] in ("full", "ramped", "pigrow"):
+                        r.count("full_not_applicable(C04's business)")
+                        continue
+                    r.add_violation(Violation(PROP, f"{unit['init']}.initialize", "raised", dict(f, exc=type(ex.exc).__name__), w,
+                                              f"initialiser {unit['init']} on {unit['grammar']} asked for {k}: {exc_brief(ex.exc)}"))
+                elif ex.result != k:
+                    r.add_violation(Violation(PROP, f"{unit['init']}.initialize", "wrong-size", f, w,
+                                              f"initialiser {unit['init']} on {unit['grammar']} asked for {k}, yielded {ex.result}"))
+            r.capped += st.capped_paths
+            r.count("initialiser_cases")
+        r.states = 4
+        r.samples.append({"initialiser": unit["init"], "grammar": unit["grammar"]})
+    finally:
+        b.cleanup()
+    return r
+
+
+def deep_spec(name):
+    if name == "S1":
+        return [s for s in G.family_shapes() if s["name"].startswith("S1:")][0]
+    mid = [["Leaf", "M", None, [["v", ["ann", "int", ["IntRange", 0, 1]]]]], ["Deep", "M", None, [["y", ["ref", "M"]]]]]
+    if name == "mindepth2":  # R -> Wrap(x: M); M -> Leaf | Deep(M)
+        return {"name": "D2:mindepth2", "abstract": [["R", None, "ABC"], ["M", None, "ABC"]],
+                "prods": [["Wrap", "R", None, [["x", ["ref", "M"]]]]] + mid, "start": "R"}
+    return {"name": "D3:mindepth3", "abstract": [["R", None, "ABC"], ["W", None, "ABC"], ["M", None, "ABC"]],
+            "prods": [["Wrap", "R", None, [["x", ["ref", "W"]], ["z", ["ref", "M"]]]], ["Wrap2", "W", None, [["x", ["ref", "M"]]]]] + mid, "start": "R"}
 
 
 def run_lexicase(unit) -> UnitResult:
@@ -386,7 +546,8 @@ def run_gp(unit) -> UnitResult:
 
 
 def run_unit(unit) -> UnitResult:
-    return {"steps": run_steps, "init": run_init, "gp": run_gp, "fractional": run_fractional, "lexicase": run_lexicase}[unit["kind"]](unit)
+    return {"steps": run_steps, "init": run_init, "gp": run_gp, "fractional": run_fractional, "lexicase": run_lexicase,
+            "reweighted": run_reweighted, "reweighted-lib": run_reweighted_lib, "init-deep": run_init_deep}[unit["kind"]](unit)
 
 
 def finalize(cr):
